@@ -548,7 +548,8 @@ def part_sched(ctx):
     def one(job):
         pat, sc = job
         parts, total, resume = [], None, None
-        for attempt in range(60):
+        # (stalls are rare - none in a usual run of the unchanged tree; each costs the watchdog's 60 s)
+        for attempt in range(5 if ctx.quick else 60):
             t = ctx.path("traces", f"sched-{pat}-{sc or 'all'}.{attempt}.ndjson")
             args = ["sched", "--pat", pat, "--root", ctx.path("dom", "x")[:-2], "--out", t] + extra
             if sc:
@@ -883,27 +884,36 @@ def part_fault(ctx):
         done = list(ex.map(one, PATS))
     out, groups, summs = [], {}, []
     for pat, recs, summaries in done:
+        # counted from the RECORDED histories (a driver part that died has no summary)
         tot = {"pat": pat, "calls": 0, "results": {}, "injected": 0, "runs": 0, "fault_results": {}, "positions": []}
         for s_ in summaries:
-            tot["calls"] += s_["calls"]
-            tot["injected"] += s_["injected"]
-            tot["runs"] += s_["runs"]
-            tot["positions"] += s_.get("positions", [])
-            for key in ("results", "fault_results"):
-                for k, v in s_[key].items():
-                    tot[key][k] = tot[key].get(k, 0) + v
+            for p_ in s_.get("positions", []):
+                if p_ not in tot["positions"]:
+                    tot["positions"].append(p_)
+        for e in recs:
+            k = e.get("k")
+            if k == "reset":
+                tot["runs"] += 1
+            elif k == "fault":
+                tot["injected"] += 1
+            elif k == "ret":
+                tot["calls"] += 1
+                key = f"{e['a']}:{e['r']}"
+                tot["results"][key] = tot["results"].get(key, 0) + 1
+                if e.get("f"):
+                    tot["fault_results"][key] = tot["fault_results"].get(key, 0) + 1
         fr = tot["fault_results"]
         # vacuity: faults were really injected, into creations and into opens, and some calls failed because of them
-        if tot["injected"] < 8 or not any(k.startswith("create:") and not k.endswith(":Ok") for k in fr) \
-                or not any(k.startswith("open:") and not k.endswith(":Ok") for k in fr):
-            raise vp.ToolError(f"vacuous fault injection for {pat}: {tot['injected']} faults, results {fr}")
+        # (strict for the fully enumerated patterns; a seeded sample may consist of few failable positions)
+        full = plan[pat][0] == 0
+        if tot["injected"] < (8 if full else 1) or (full and (
+                not any(k.startswith("create:") and not k.endswith(":Ok") for k in fr)
+                or not any(k.startswith("open:") and not k.endswith(":Ok") for k in fr))):
+            out.append(("vacuity", f"vacuous fault injection for {pat}: {tot['injected']} faults, results {fr}"))
         summs.append(tot)
         for run in vp.split_runs(recs):
             groups.setdefault((pat, "all"), []).append(run)
-    with cf.ThreadPoolExecutor(max_workers=4) as ex:
-        for res in ex.map(lambda kv: validate_runs(ctx, f"fault-{kv[0][0]}-{kv[0][1].replace('@', '_')}", kv[1], describe_fault),
-                          sorted(groups.items())):
-            out.extend(res)
+    out.extend(validate_runs(ctx, "fault-all", [run for _, runs_ in sorted(groups.items()) for run in runs_], describe_fault))
     out.append(("calls", ("fault", [{"pat": s_["pat"], "calls": s_["calls"], "results": s_["results"]} for s_ in summs])))
     out.append(("fault", summs))
     shown = False
@@ -1132,17 +1142,12 @@ def part_crash(ctx):
                 calls += 1
                 key = f"{pat}/crash/{e['a']}:{e['r']}"
                 results[key] = results.get(key, 0) + 1
+    vac = []
     if killed < len(jobs) * 0.8:
-        raise vp.ToolError(f"vacuous crash injection: only {killed} of {len(jobs)} victims were killed")
+        vac.append(("vacuity", f"vacuous crash injection: only {killed} of {len(jobs)} victims were killed"))
     if not any(k.endswith("open:HangsInCreation") for k in results) and hangs == 0:
-        raise vp.ToolError(f"vacuous crash histories: no opener ever met a half-created service ({results})")
-    groups = {}
-    for run in runs:
-        groups.setdefault(run[0]["pat"], []).append(run)
-    out = []
-    with cf.ThreadPoolExecutor(max_workers=4) as ex:
-        for res in ex.map(lambda kv: validate_runs(ctx, f"crash-{kv[0]}", kv[1], describe_crash), sorted(groups.items())):
-            out.extend(res)
+        vac.append(("vacuity", f"vacuous crash histories: no opener ever met a half-created service ({results})"))
+    out = vac + validate_runs(ctx, "crash-all", runs, describe_crash)
     out.append(("crash", {"scenarios": len(jobs), "killed": killed, "proven_hangs": hangs, "calls": calls, "results": results,
                           "ranges": {f"{p}/{o}": [m["n0"], m["n1"]] for (p, o), m in meta.items()}}))
     smp = next((r for r in runs if r[0]["pat"] == "ps" and any(e.get("k") == "crash" for e in r)
@@ -1189,7 +1194,7 @@ def selftest(ctx):
             raise vp.ToolError(f"selftest: a history with a corrupted {what} was accepted - the trace binding is vacuous")
         done.append(what)
 
-    fp, cp = ctx.path("traces", "fault-ps-all.0.ndjson"), ctx.path("traces", "crash-ps.0.ndjson")
+    fp, cp = ctx.path("traces", "fault-all.0.ndjson"), ctx.path("traces", "crash-all.0.ndjson")
     if os.path.exists(fp):
         good = lambda r: any(e.get("k") == "ret" and e.get("f") and e["r"] != "Ok" for e in r) and \
             not any(k == "violation" for k, _ in validate_runs(ctx, "selftest-probe", [r], lambda *_: vp.Violation("x")))
@@ -1267,12 +1272,15 @@ def run(ctx):
             jobs.append(ex.submit(part_must_fail, ctx, "MF_unlock_before_write", {"wbu": False}))
             jobs.append(ex.submit(part_must_fail, ctx, "MF_no_lock_on_last", {"lol": False}))
             jobs.append(ex.submit(part_must_fail, ctx, "MF_register_after_finalise", {"rii": False}))
-        results = []
+        results, tool_errors = [], []
         for j in jobs:
-            results.extend(j.result())
+            try:
+                results.extend(j.result())
+            except vp.ToolError as e:        # raised again below, AFTER the violations of the other parts were reported
+                tool_errors.append(e)
 
     hashes, calls, pairs_total = set(), 0, 0
-    per_result = {}
+    per_result, vacuous = {}, []
     for kind, payload in results:
         if kind == "tlc":
             name, res, count = payload
@@ -1302,6 +1310,8 @@ def run(ctx):
             ctx.coverage.setdefault("extracted_step_order", {})[pat] = {"steps": steps, "parameters": params}
         elif kind == "schedules":
             ctx.coverage["scheduler_executions"] = payload
+        elif kind == "vacuity":
+            vacuous.append(payload)
         elif kind == "fault":
             ctx.coverage["fault_injection"] = [
                 {"pat": f["pat"], "runs": f["runs"], "faults_injected": f["injected"], "results_of_faulted_calls": f["fault_results"],
@@ -1316,6 +1326,11 @@ def run(ctx):
             vp.record_tlc(ctx, f"must-fail {name}", res, count=False)
             if not res.violated:
                 raise vp.ToolError(f"must-fail instance {name} was not refuted: the lifecycle model is blind to it")
+    if tool_errors:
+        raise tool_errors[0]
+    if vacuous:
+        # reported AFTER the violations (bin/check prints recorded violations before a tool error)
+        raise vp.ToolError("; ".join(vacuous))
     if not quick:
         selftest(ctx)
 
